@@ -568,6 +568,13 @@ func (l *Ledger) ConfirmBlock(block *pb.InternalBlock, isRoot bool) ConfirmStatu
 	dummyTransactions := []*pb.Transaction{}
 	realTransactions := block.Transactions // 真正的交易转存到局部变量
 	block.Transactions = dummyTransactions // block表不保存transaction详情
+	defer func() {
+		if !confirmStatus.Succ {
+			// 确认失败时batch没有写盘: 把交易还给调用方, 并丢弃saveBlock/handleFork已经提前改掉的区块头缓存
+			block.Transactions = realTransactions
+			l.blkHeaderCache = cache.NewLRUCache(BlockCacheSize)
+		}
+	}()
 
 	batchWrite := l.confirmBatch
 	batchWrite.Reset()
